@@ -373,7 +373,14 @@ fn stress_cmd(flags: &HashMap<String, String>) -> Result<(), String> {
     let seed = flag_num(flags, "seed")?;
     let keys = flag_num(flags, "keys")? as u32;
     let limits = flags.get("limits").map(|s| s != "off").unwrap_or(true);
-    let rep = stress::run(kind, threads.max(1), millis, seed, keys.max(1), flags.get("stop-on").cloned(), limits);
+    let rep = if let Some(h) = flags.get("hold") {
+        // scenario "many held keys": --hold H --free F
+        let held: u32 = h.parse().map_err(|e| format!("--hold: {e}"))?;
+        let free = flag_num(flags, "free")? as u32;
+        stress::run_holders(kind, threads.max(1), millis, held, free.max(1))
+    } else {
+        stress::run(kind, threads.max(1), millis, seed, keys.max(1), flags.get("stop-on").cloned(), limits)
+    };
     let vio: Vec<String> = rep
         .violations
         .iter()
